@@ -48,10 +48,10 @@ Section Equiv.
   (* decoded and lower-cased key of an object member, as the field lookup sees it *)
   Definition lkey (kv : bytes * jv) : option bytes := option_map to_lower (sunq Jit o (fst kv)).
 
-  (* every object has pairwise distinct keys (after decoding and lower-casing); no array holds a null *)
+  (* every object has pairwise distinct keys (after decoding and lower-casing) *)
   Fixpoint once (j : jv) : Prop :=
     match j with
-    | JArr _ l => (fix all (l : list jv) : Prop := match l with [] => True | x :: r => x <> JNull /\ once x /\ all r end) l
+    | JArr _ l => (fix all (l : list jv) : Prop := match l with [] => True | x :: r => once x /\ all r end) l
     | JObj _ l => NoDup (map lkey l) /\
                   (fix all (l : list (bytes * jv)) : Prop := match l with [] => True | x :: r => once (snd x) /\ all r end) l
     | _ => True
@@ -66,11 +66,11 @@ Section Equiv.
     (sunq Opt o b = sunq Jit o b /\ sunq OptFast o b = sunq Jit o b) -> sunq im o b = sunq Jit o b.
   Proof. intros im b H [H1 H2]. destruct im; [discriminate|exact H1|exact H2]. Qed.
 
-  Lemma g11_arr : forall raw l, guards11 (JArr raw l) -> Forall (fun x => x <> JNull /\ guards11 x) l.
+  Lemma g11_arr : forall raw l, guards11 (JArr raw l) -> Forall guards11 l.
   Proof.
     intros raw l [G1 G2]. simpl in *. induction l as [|x r IH]; constructor.
-    - simpl in G1. apply Forall_app in G1 as [? ?]. destruct G2 as [? [? ?]]. split; [assumption|]. constructor; assumption.
-    - simpl in G1. apply Forall_app in G1 as [? ?]. destruct G2 as [? [? ?]]. apply IH; assumption.
+    - simpl in G1. apply Forall_app in G1 as [? ?]. destruct G2 as [? ?]. constructor; assumption.
+    - simpl in G1. apply Forall_app in G1 as [? ?]. destruct G2 as [? ?]. apply IH; assumption.
   Qed.
 
   Lemma g11_obj : forall raw l, guards11 (JObj raw l) ->
@@ -114,7 +114,7 @@ Section Equiv.
                   (fix go (l0 : list jv) : res (list val) :=
                      match l0 with [] => Ok [] | x :: r => do v <- sonic_any Jit o x; do vs <- go r; Ok (v :: vs) end) l).
       { clear G. induction l as [|x r IHl]; [reflexivity|].
-        inversion IH; subst. inversion GA as [|? ? [_ Gx] GA']; subst.
+        inversion IH; subst. inversion GA as [|? ? Gx GA']; subst.
         rewrite H1 by assumption. rewrite IHl by assumption. reflexivity. }
       rewrite E. reflexivity.
     - destruct (g11_obj _ _ G) as [ND GO].
@@ -246,19 +246,12 @@ Section Equiv.
     sonic_field h im o fs i j vs = sonic_field h Jit o fs i j vs.
 
   Lemma elems_equiv : forall e im l, Qty e -> frag11 e = true -> is_opt im = true ->
-    Forall (fun x => x <> JNull /\ guards11 x) l ->
+    Forall guards11 l ->
     Forall (fun x => forall v, nh v = true -> sonic_bind h im o e x v = sonic_bind h Jit o e x v) l.
   Proof.
     intros e im l IH F Him G. induction l as [|x r IHl]; constructor.
-    - inversion G as [|? ? [_ Gx] _]; subst. intros v Hv. apply IH; assumption.
+    - inversion G as [|? ? Gx _]; subst. intros v Hv. apply IH; assumption.
     - inversion G; subst. apply IHl; assumption.
-  Qed.
-
-  Lemma no_null_elem : forall l, Forall (fun x => x <> JNull /\ guards11 x) l ->
-    existsb (fun x => match x with JNull => true | _ => false end) l = false.
-  Proof.
-    induction l as [|x r IH]; intro H; simpl; [reflexivity|]. inversion H as [|? ? [Hx _] Hr]; subst.
-    rewrite (IH Hr). destruct x; try reflexivity. congruence.
   Qed.
 
   Theorem equiv_all : (forall t, Qty t) /\ (forall fs, Qfs fs).
@@ -277,7 +270,7 @@ Section Equiv.
       + (* TSlice *) intros e IH F im j v Him G Hv. simpl in F. destruct j; try reflexivity. step.
         destruct l as [|x r]; [reflexivity|].
         pose proof (g11_arr _ _ G) as GA.
-        rewrite Him. rewrite (no_null_elem _ GA). rewrite andb_false_r.
+        rewrite Him.
         (* no hidden elements: the old array and its visible part coincide *)
         assert (Hold : (if Nat.leb (length (x :: r)) (length (match v with VList vis hid => vis ++ hid | _ => [] end))
                         then match v with VList vis hid => vis ++ hid | _ => [] end
@@ -436,11 +429,13 @@ Theorem float_inf_refuted :
   sonic_unmarshal h1 Opt opts_std (TStruct (fld "a" (TInt I64) FNil)) (b "{""zz"":1e400}") (VList [VInt 0] []) = Err.
 Proof. repeat split; vm_compute; reflexivity. Qed.
 
-(* []string: a null element *)
-Theorem slice_null_element_refuted :
+(* repaired (ea591a6): a null element of []string, a null value of map[string]string *)
+Theorem slice_and_map_null_agree :
   sonic_unmarshal h1 Jit opts_std (TSlice TStr) (b "[null]") VNil = Ok (VList [VStr []] []) /\
-  sonic_unmarshal h1 Opt opts_std (TSlice TStr) (b "[null]") VNil = Err.
-Proof. split; vm_compute; reflexivity. Qed.
+  sonic_unmarshal h1 Opt opts_std (TSlice TStr) (b "[null]") VNil = Ok (VList [VStr []] []) /\
+  sonic_unmarshal h1 Jit opts_std (TMap KStr TStr) (b "{""k"":null}") VNil = Ok (VMap [(VStr (b "k"), VStr [])]) /\
+  sonic_unmarshal h1 Opt opts_std (TMap KStr TStr) (b "{""k"":null}") VNil = Ok (VMap [(VStr (b "k"), VStr [])]).
+Proof. repeat split; vm_compute; reflexivity. Qed.
 
 (* a slice with hidden elements and an input longer than its capacity *)
 Theorem slice_grow_refuted :
@@ -449,12 +444,6 @@ Theorem slice_grow_refuted :
   let s := b "[{""A"":1},{""A"":2}]" in
   sonic_unmarshal h1 Jit opts_std t s v = Ok (VList [VList [VInt 1; VInt 8] []; VList [VInt 2; VInt 0] []] []) /\
   sonic_unmarshal h1 Opt opts_std t s v = Ok (VList [VList [VInt 1; VInt 0] []; VList [VInt 2; VInt 0] []] []).
-Proof. split; vm_compute; reflexivity. Qed.
-
-(* map[string]string with a null value; null into a pointer to pointer to an unmarshaler *)
-Theorem map_string_null_refuted :
-  sonic_unmarshal h1 Jit opts_std (TMap KStr TStr) (b "{""k"":null}") VNil = Ok (VMap [(VStr (b "k"), VStr [])]) /\
-  sonic_unmarshal h1 Opt opts_std (TMap KStr TStr) (b "{""k"":null}") VNil = Err.
 Proof. split; vm_compute; reflexivity. Qed.
 
 (* repaired divergences (afd5482, 39e707a): the uint32 key and the float32 edge now agree *)
